@@ -483,10 +483,10 @@ func (c *c15Hist) init() {
 }
 
 func streamC15(h *H) {
-	nh := h.N(24, 2000)
+	nh := h.N(24, 400)
 	maxOps := 8
 	if h.Thorough() {
-		maxOps = 25
+		maxOps = 16
 	}
 	for i := 0; i < nh; i++ {
 		c := c15NewHist(h)
